@@ -36,7 +36,11 @@ def make_ns(env):
         if isinstance(v, list):
             return ("list",) + tuple(lab(x) for x in v)
         if isinstance(v, dict):
-            return ("dict",) + tuple((k, lab(x)) for k, x in v.items())
+            return ("dict",) + tuple((lab(k), lab(x)) for k, x in v.items())
+        if isinstance(v, (set, frozenset)):
+            return ("set",) + tuple(sorted(repr(lab(x)) for x in v))
+        if type(v).__name__ == "generator":
+            return ("generator",)  # its repr carries a qualified name, which C07 does not observe
         if isinstance(v, type):
             return ("class", v.__name__)
         if callable(v):
@@ -256,6 +260,24 @@ def templates(tier):
     yield "asg:unpack-call-rhs", "x, *y = p(1)(p(2))", ""
     yield "asg:value-call", "p(1).a = p(2)(p(3))", ""
     yield "asg:value-attr-of-target", "p(1).a = p(2).b + p(3)", ""
+    # ---- every syntactic kind of assigned value x every single-target kind (a lowering may decide by the KIND of
+    #      the value whether it needs a temporary: constants, names, lambdas with defaults, displays, ...)
+    values = {
+        "const": "7", "none": "None", "name": "v0", "lambda-defaults": "lambda a=p(8), *, b=p(9): 0", "lambda-plain": "lambda: p(8)",
+        "fstring": "f'{p(8)}-{p(9)!r}'", "list": "[p(8), p(9)]", "tuple": "(p(8), p(9))", "dict": "{p(8): p(9)}", "set": "{p(8)}",
+        "listcomp": "[p(8) for _ in (1,)]", "genexp": "(p(8) for _ in (1,))", "ifexp": "p(8) if p(7) else p(9)", "boolop": "p(8) or p(9)",
+        "walrus": "(w := p(8))", "attr": "p(8).v", "sub": "p(8)[p(9)]", "call": "p(8)(p(9))", "binop": "p(8) + p(9)", "unary": "-p(8)",
+        "compare": "p(8) < p(9)", "starred": "*p(8, (0,)), p(9)", "slice-load": "p(8)[p(9):]",
+    }
+    targets = {
+        "name": ("x", ""), "attr": ("p(1).a", ""), "sub": ("p(1)[p(2)]", ""), "slice": ("p(1)[p(2):p(3)]", ""), "ann-attr": ("p(1).a: int", ""),
+        "ann-sub": ("p(1)[p(2)]: int", ""), "chain": ("p(1).a = p(2)[p(3)]", ""), "attr-of-name": ("o.a", "o = p(99)"), "sub-of-name": ("o[p(2)]", "o = p(99)"),
+    }
+    for vn, v in values.items():
+        for tn, (t, pre) in targets.items():
+            if vn == "starred" and tn.startswith("ann"):
+                continue  # an unparenthesised starred tuple is not allowed in an annotated assignment before 3.8+/3.11 rules
+            yield "asgv:%s:%s" % (tn, vn), "%s = %s" % (t, v), "\n".join(x for x in (pre, "v0 = p(98)" if vn == "name" else "") if x)
     # ---- augmented assignment: 13 operators x 4 target kinds (in-place capability by the scheduler)
     ops = OPS if tier == "thorough" else OPS
     for op in ops:
